@@ -167,6 +167,8 @@ def runE2E (c obs : String) : String × String × Bool :=
         s!"an invocation did not end with a result or an error: {obs.take 120}"
       else if bm && !encodableArgs then
         (if !(obs.startsWith "err:" || obs.startsWith "fatal:") then "unencodable-argument-not-reported-as-error"
+         else if (obs.splitOn "deadline exceeded").length > 1 then
+           "an argument that cannot be encoded was not reported at once: the run waited for a machine"
          else if (obs.splitOn "consecutive attempts").length > 1 then
            "an argument problem was retried as a lost task instead of failing fast with its cause"
          else "ok")
